@@ -42,11 +42,12 @@ class UnitOutcome:
         self.raw = ''
         self.trusted = []
         self.unit_text = ''
+        self.fallbacks = []
 
     def to_json(self):
         return {k: getattr(self, k) for k in
                 ('name', 'status', 'reason', 'verified', 'errors', 'failed', 'tool_limited', 'twins_total',
-                 'twins_rejected', 'twins_vacuous', 'functions', 'standins', 'rewrites', 'seconds', 'cmd', 'trusted')}
+                 'twins_rejected', 'twins_vacuous', 'functions', 'standins', 'rewrites', 'seconds', 'cmd', 'trusted', 'fallbacks')}
 
 
 def fn_ranges(res: weave.UnitResult):
@@ -112,6 +113,7 @@ def run_unit(name, repo='/repo', rlimit=None, seed=None, twins=True, keep=None, 
     out.standins = res.standins
     out.rewrites = res.rewrites
     out.twins_total = len(res.twins)
+    out.fallbacks = res.fallbacks
     out.unit_text = res.text
     out.trusted = describe_trusted(res.text)
     d = scratch_dir()
@@ -290,6 +292,8 @@ if __name__ == '__main__':
         o.name, o.status, o.verified, o.errors, o.twins_rejected, o.twins_total, o.seconds))
     if o.reason:
         print('  reason:', o.reason)
+    for fb in o.fallbacks:
+        print('  FALLBACK (anchors lost, loop-free: verified against pre/postcondition only):', fb['fallback'], '--', fb['reason'])
     for f, recs in o.failed.items():
         print('  FAILED', f)
         for r in recs:
